@@ -290,11 +290,21 @@ inline Call bounded(const Call &c0) {
 inline Out exec(const Call &c0) {
   warmup();
   Call c = bounded(c0);
+  // Heap balance: a decoder that leaks does so on every execution of the same call, while the process-wide counter can
+  // also move once because of another thread (libFuzzer's RSS watcher starting late on a loaded machine was observed to
+  // change it by a few hundred bytes in either direction).  Fewer live bytes than before cannot be a leak; more live bytes
+  // count only when three executions in a row each leave more behind.
   Out o;
-  size_t before = __sanitizer_get_current_allocated_bytes();
-  dispatch(c, o);
-  size_t after = __sanitizer_get_current_allocated_bytes();
-  if (after != before) fail(o, "%s/%s: %zu heap bytes are live after the call that were not before it (status %s)", famName(c.fam), subName(c.fam, c.sub), after - before, o.success ? "success" : "failure");
+  size_t grew = 0, last = 0;
+  for (int attempt = 0; attempt < 3; attempt++) {
+    o = Out();
+    size_t before = __sanitizer_get_current_allocated_bytes();
+    dispatch(c, o);
+    size_t after = __sanitizer_get_current_allocated_bytes();
+    if (after <= before) break;
+    grew++; last = after - before;
+  }
+  if (grew == 3) fail(o, "%s/%s: %zu heap bytes are live after the call that were not before it, on each of three executions (status %s)", famName(c.fam), subName(c.fam, c.sub), last, o.success ? "success" : "failure");
   return o;
 }
 
